@@ -74,9 +74,10 @@ class Authenticator:
         if auth_event.kind != 22242:
             raise AuthenticationError("invalid: Wrong kind. Must be 22242.")
         since = time() - auth_event.created_at
-        if since >= 600:
+        # written so that a timestamp which is not a number (NaN) fails too
+        if not since < 600:
             raise AuthenticationError("invalid: Too old")
-        elif since <= -600:
+        elif not since > -600:
             raise AuthenticationError("invalid: Too new")
         found_relay = found_challenge = False
         for tag in auth_event.tags:
